@@ -1,9 +1,9 @@
 package harness
 
 import (
-	"github.com/emersion/go-sasl"
 	"bytes"
 	"fmt"
+	"github.com/emersion/go-sasl"
 	"strings"
 	"time"
 
@@ -196,7 +196,7 @@ func serverCaps(variant int) imap.CapSet {
 // against the real backend too.
 type memSASLSession struct {
 	*imapmemserver.UserSession // nil until login
-	user *imapmemserver.User
+	user                       *imapmemserver.User
 }
 
 var _ imapserver.SessionSASL = (*memSASLSession)(nil)
